@@ -166,7 +166,7 @@ CHECKS = {
         "model_checking",
         "3 (thorough 4) structures x all 128 subsets of {alt locs, insertion "
         "codes, formal charges, 4-character names, two models (rows not "
-        "grouped by model), negative "
+        "grouped by model; per-file loop layouts and header variants), negative "
         "numbering, HETATM waters} x {AMBER, PARSE} x {default, --clean}: "
         "PDB text and an independently written mmCIF twin must give the same "
         "atoms, coordinates, charges and radii; failing feature sets are "
@@ -179,10 +179,12 @@ CHECKS = {
     "C11": (
         "model_checking",
         "Search over run histories in one process: every sequence of <=2 "
-        "(thorough <=3) runs from a 14-run alphabet (successes and failures, "
+        "(thorough <=3) runs from an 18-run alphabet (successes and failures, "
         "titration, ligand, --clean, two user force fields, heavy-atom "
         "repair, refused gapped structure, tolerated parse error, multi-model "
-        "PDB and mmCIF files) executed in a fresh "
+        "PDB and mmCIF files, two real PROPKA runs, an exactly symmetric "
+        "structure), plus interleaved repetition histories of length 11-13, "
+        "executed in a fresh "
         "child process; each run's PQR bytes must equal those of the run "
         "alone in a fresh process; every run repeated under several hash "
         "seeds; a structural fingerprint of pdb2pqr's module-level state "
